@@ -4,8 +4,9 @@
   What is modelled (transliteration of supp/linter.py):
     * the usage loop `for name in name_usages:` -- E42 when the read has no flow, E02 on KeyError,
       the `locals` branch, `qualified_imports.add`, `use_name` (MultiName: every alternative);
-      including the quirk that `sname.location` raises AttributeError when `sname` is a MultiName whose
-      name is 'locals', and that the `locals` branch skips MultiName table values (no `scope` attribute);
+      including the quirk that the `locals` branch skips MultiName table values (no `scope` attribute); no path
+      of the loop raises any more (`getattr(sname, 'location', None)`; the legacy loop that raised on a MultiName
+      named 'locals' is kept in Witness/C10.lean);
     * the report loop `for flow, name in scope.all_names:` -- its decision chain and report fields are the
       *generated* `Generated.reportFull / reportMsgArg / reportLine / reportCol`.
 
@@ -134,9 +135,9 @@ def usageStep (st : St) (r : Read) : Except PyErr St :=
     match fl.table.lookup r.id with
     | none =>
       .ok { st with diags := st.diags ++ [⟨"E02", Generated.undefinedNamePrefix ++ r.id, r.loc.1, r.loc.2⟩] }
-    | some (.multi nm alts) =>
-      if nm = "locals" then .error .attributeError          -- `sname.location` on a MultiName
-      else .ok { st with used := alts ++ st.used }
+    | some (.multi _ alts) =>
+      -- a MultiName has no `location`: `getattr(sname, 'location', None) == (0, 0)` is false, whatever its name
+      .ok { st with used := alts ++ st.used }
     | some (.single s) =>
       if s.name = "locals" ∧ s.locZero = true then
         .ok { st with used := localsMarks fl ++ st.used }
@@ -210,14 +211,6 @@ def RefsScoped (m : Module) : Prop :=
 /-- `all_names` lists every Name object once -/
 def NoDupIds (m : Module) : Prop := (m.allNames.map (·.id)).Nodup
 
-/-- the read resolves to a MultiName called 'locals' (the only way the usage loop raises) -/
-def Read.multiLocals (r : Read) : Bool :=
-  match r.flow with
-  | some fl => (match fl.table.lookup r.id with | some (.multi nm _) => nm == "locals" | _ => false)
-  | none => false
-
-def NoMultiLocals (m : Module) : Prop := ∀ r ∈ m.reads, r.multiLocals = false
-
 /-- the read happens in scope `s` and resolves to the builtin `locals` -/
 def Read.localsIn (r : Read) (s : ScopeId) : Bool :=
   match r.flow with
@@ -230,7 +223,6 @@ def LocalsReadIn (m : Module) (s : ScopeId) : Prop := ∃ r ∈ m.reads, r.local
 instance (m : Module) : Decidable (TableWellKeyed m) := by unfold TableWellKeyed; infer_instance
 instance (m : Module) : Decidable (RefsScoped m) := by unfold RefsScoped; infer_instance
 instance (m : Module) : Decidable (NoDupIds m) := by unfold NoDupIds; infer_instance
-instance (m : Module) : Decidable (NoMultiLocals m) := by unfold NoMultiLocals; infer_instance
 instance (m : Module) (s : ScopeId) : Decidable (LocalsReadIn m s) := by unfold LocalsReadIn; infer_instance
 
 end SuppModel.Lint
